@@ -379,6 +379,22 @@ func c02Explore(c c02Case) (vs []ev.V) {
 			}
 		}
 	}
+	// without any crash: a recipient delivered in attempt n is not offered again in a later attempt
+	{
+		pre := newC02Pre()
+		pre.absorb(sc, h0, int64(len(log0))+1, nil)
+		for _, m := range sc.Msgs {
+			for n, rs := range pre.deliveredUpTo[m.ID] {
+				for _, r := range rs {
+					for n2, off := range pre.offered[m.ID] {
+						if n2 > n && off[r] {
+							report(nil, []ev.V{ev.Vf("I4:resent-within-run", "recipient %s of %s was delivered in attempt %d and offered to the target again in attempt %d", r, m.ID, n, n2)})
+						}
+					}
+				}
+			}
+		}
+	}
 	pts := c02Points(log0)
 	for _, p1 := range pts {
 		if len(c.Path) >= 1 && (c.Path[0].K != p1.K || c.Path[0].V != p1.V) {
